@@ -49,7 +49,7 @@ COMPONENTS = {"real": ["redress.strategies.decorrelated_jitter / equal_jitter / 
 ASSUMPTIONS = ["much of this property's quantifier is plain input space (parameters, attempt numbers); the simulator owns the draw, "
                "the clock/history and the attempt numbers reached by the loop", "envelope comparisons allow 1e-9 relative rounding slack",
                "sampling, not proof"]
-BUDGETS = {"quick": (3000, 50), "thorough": (200000, 285)}
+BUDGETS = {"quick": (4000, 90), "thorough": (100000, 285)}
 TOP = 1.0 - 2.0 ** -53
 G = {"equal": 2, "token": Fraction(3, 2)}
 
@@ -124,6 +124,14 @@ def gen(seed, tier="quick"):
                 ops.append(["call", r.choice([0, 1, 250_000, 1_000_000, 30_000_000, r.randrange(0, 10**7)])])
         scn["ops"] = ops
         scn["inner"] = r.choice(["const", "equal", "token", "decorrelated"])
+        if r.random() < 0.4:
+            # the same strategy object driven by real policy runs: the loop feeds record_failure / record_success
+            scn["kind"] = "adaptive_policy"
+            scn["mode"] = r.choice(["sync", "async"])
+            scn["max_attempts"] = r.choice([2, 3, 5, 8])
+            scn["calls"] = [{"fails": r.randint(0, 8), "gap_us": r.choice([0, 1000, w, w - 1, w + 1, w // 2]), "dur_us": r.choice([0, 1000, w // 4])}
+                            for _ in range(r.randint(1, 8))]
+            scn["fallback_us"] = r.choice([0, 1, 250_000, 1_000_000])
         return scn
     if name == "retry_after_or":
         scn["jitter_s"] = r.choice([0.0, 0.25, 1.0, 2.0, -1.0])
@@ -349,9 +357,99 @@ def run_adaptive(scn, out):
     return records, clock, draws
 
 
+def run_adaptive_policy(scn, out):
+    clock = SimClock(0)
+    draws = Draws(scn["draws"], scn["seed"])
+    seams.bind(clock, draws)
+    a = scn["adaptive"]
+    mn, mx = a["min_m"], a["min_m"] + a["span"]
+    fbv = scn["fallback_us"] / 1e6
+    fb_calls = []
+
+    def fallback(ctx):
+        fb_calls.append(fbv)
+        return fbv
+    ad = S.adaptive(fallback, window_s=a["window_us"] / 1e6, target_success=a["target_success"], min_multiplier=mn, max_multiplier=mx,
+                    clock=clock.monotonic)
+    records = []
+
+    def recorder(ctx):
+        n0 = len(fb_calls)
+        try:
+            x = ad(ctx)
+        except Exception as exc:
+            out.append(V("R1", f"adaptive raised {type(exc).__name__}", {"adaptive": a}))
+            raise
+        records.append({"attempt": ctx.attempt, "fallback": fbv if len(fb_calls) > n0 else None, "value": x})
+        if len(fb_calls) == n0:
+            out.append(V("R4", "adaptive did not consult its fallback", {"adaptive": a}))
+        elif x != x or x < mn * fbv * (1 - 1e-9) or x > mx * fbv * (1 + 1e-9):
+            out.append(V("R4", "adaptive scaled its fallback by a factor outside [min_multiplier, max_multiplier]",
+                         {"adaptive": a, "fallback": fbv, "value": x, "min": mn, "max": mx}))
+        return x
+    # the loop discovers record_failure / record_success on the strategy object itself
+    recorder.record_failure = ad.record_failure
+    recorder.record_success = ad.record_success
+
+    class Boom(Exception):
+        pass
+
+    kw = dict(classifier=lambda e: ErrorClass.TRANSIENT, strategy=recorder, deadline_s=1e9, max_attempts=scn["max_attempts"], max_unknown_attempts=None)
+    escaped = []
+    if scn["mode"] == "sync":
+        pol = Retry(sleeper=lambda s: clock.advance(sec_to_us(s)), **kw)
+        for c in scn["calls"]:
+            clock.advance(c["gap_us"])
+            left = [c["fails"]]
+
+            def op():
+                clock.advance(c["dur_us"])
+                if left[0] > 0:
+                    left[0] -= 1
+                    raise Boom()
+                return "ok"
+            try:
+                pol.call(op)
+            except Boom:
+                pass
+            except Exception as exc:
+                escaped.append(exc)
+    else:
+        async def asl(s):
+            await asyncio.sleep(s if (isinstance(s, (int, float)) and s == s and 0 <= s < 1e12) else 0)
+        pol = AsyncRetry(sleeper=asl, **kw)
+
+        async def main(loop):
+            for c in scn["calls"]:
+                await asyncio.sleep(c["gap_us"] / 1e6)
+                left = [c["fails"]]
+
+                async def aop():
+                    await asyncio.sleep(c["dur_us"] / 1e6)
+                    if left[0] > 0:
+                        left[0] -= 1
+                        raise Boom()
+                    return "ok"
+                try:
+                    await pol.call(aop)
+                except Boom:
+                    pass
+                except Exception as exc:
+                    escaped.append(exc)
+        simloop.run(clock, main, step_cap=2_000_000)
+    seams.bind(clock, None)
+    for exc in escaped[:1]:
+        if not any(v["rule"] == "R1" for v in out):
+            out.append(V("R1", f"policy run with adaptive() died with {type(exc).__name__}", {"error": repr(exc)[:200]}))
+    return records, clock, draws
+
+
 def execute(scn):
     viol = []
-    if scn["kind"] == "adaptive_hist":
+    if scn["kind"] == "adaptive_policy":
+        records, clock, draws = run_adaptive_policy(scn, viol)
+        escaped = None
+    elif scn["kind"] == "adaptive_hist":
         records, clock, draws = run_adaptive(scn, viol)
         escaped = None
     elif scn["kind"] == "strat_worker":
